@@ -35,6 +35,8 @@ EDGE_KINDS = {
     "distance": ue.DistanceEdge,
     "midpoint": ue.MidpointEdge,
     "point_prior_xy": ue.PointPriorXY,
+    "visual_range": ue.VisualRange,
+    "prior_tag_p": ue.PriorTagP,
 }
 
 
@@ -343,6 +345,9 @@ def gen_opt_workload(rng, opts=None):
         "self_loops": False,
         "alias_poses": 0.0,
         "asym_information": 0.0,
+        "nonunit_quats": 0.0,
+        "satellite_pose": 0.0,
+        "rank_deficient_information": 0.0,
     }
     o.update(opts or {})
     family = rng.choice(o["families"])
@@ -460,6 +465,18 @@ def gen_opt_workload(rng, opts=None):
                         "offset_id": rng.choice([None, 0, 1, 7]),
                     }
                 )
+        # a "satellite": a pose that is touched by a single landmark edge only (its own Hessian block is rank deficient)
+        if o["satellite_pose"] and lands and t in ("SE2", "SE3") and rng.random() < o["satellite_pose"]:
+            sat = rand_pose(rng, t, scale, math.pi)
+            verts.append([t, sat, "satellite"])
+            si = vindex
+            vindex += 1
+            li = rng.choice(lands)
+            off = POSE_TYPES[t].identity() if rng.random() < 0.5 else rand_pose(rng, t, scale * 0.5, math.pi)
+            est = (sat + off).inverse + verts[li][1]
+            edges.append({"kind": "landmark", "ij": [si, li], "estimate": est, "information": rand_information(rng, est.COMPACT_DIMENSIONALITY),
+                          "offset": off, "offset_id": 0})
+            meta["satellite"] = True
         # custom edges
         if o["allow_custom"] and rng.random() < 0.35:
             for _ in range(rng.randint(1, 2)):
@@ -516,6 +533,13 @@ def gen_opt_workload(rng, opts=None):
     for k in order:
         t, truth, role = verts[k]
         init = boxplus(truth, rand_delta(rng, t, tn * scale, rn)) if role != "isolated" else truth
+        if t == "SE3" and o["nonunit_quats"] and rng.random() < o["nonunit_quats"]:
+            # a vertex as it comes out of a file written with few decimals: the quaternion is only roughly unit
+            arr = np.array(init, dtype=np.float64)
+            arr[3:] = np.round(arr[3:], 3) if rng.random() < 0.5 else arr[3:] * rng.choice([1.001, 0.998, 1.0 + 1e-4])
+            if float(np.linalg.norm(arr[3:])) > 0.5:
+                init = make_pose("SE3", arr.tolist())
+                meta["nonunit_vertex_quaternion"] = True
         vspecs.append({"id": ids[k], "pose": pose_to_spec(init), "fixed": False, "role": role})
     if o["alias_poses"] and rng.random() < o["alias_poses"] and nv >= 2:
         # a pair of same-type vertices shares one pose object (same numbers, same object)
@@ -541,6 +565,16 @@ def gen_opt_workload(rng, opts=None):
             e[what] = pose_from_spec(vspecs[k]["pose"])
             e[what + "_alias_of"] = vspecs[k]["id"]
             meta["aliased_" + what] = True
+    if o["rank_deficient_information"]:
+        for e in edges:
+            info = np.array(e["information"], dtype=np.float64)
+            if info.shape[0] >= 2 and rng.random() < o["rank_deficient_information"]:
+                # a measurement that says nothing about one direction: positive semi-definite, singular
+                k = rng.randrange(info.shape[0])
+                d = np.ones(info.shape[0])
+                d[k] = 0.0
+                e["information"] = np.diag(d) * float(10.0 ** rng.uniform(-1, 2))
+                meta["rank_deficient_information"] = True
     if o["asym_information"]:
         for e in edges:
             info = np.array(e["information"], dtype=np.float64)
